@@ -853,3 +853,97 @@ func sprintfExpanded(v ssa.Value) (string, bool) {
 	}
 	return out.String(), true
 }
+
+// checkRequestContextOutlivesCollectors: in a strategy, the context under which the requests are issued (the one handed
+// to the function or goroutines that produce the response channels) is not cancelled by the strategy while it still
+// collects: after a (non-deferred) call of that context's cancel function nothing takes the response channels any
+// more. Issuing under the soft context makes every answer of the second half of the time limit an error.
+func checkRequestContextOutlivesCollectors(p *core.Prog, r *core.Report, ds *core.Describer, rule string, fns []*ssa.Function) int {
+	n := 0
+	for _, f := range fns {
+		// channels of the function: made here, or results of a callee that is handed a context
+		type issue struct {
+			chans []ssa.Value
+			ctx   ssa.Value
+			at    ssa.Instruction
+		}
+		var issues []issue
+		core.EachInstr(f, func(in ssa.Instruction) {
+			call, ok := in.(*ssa.Call)
+			if !ok || call.Call.StaticCallee() == nil || call.Call.StaticCallee().Pkg != f.Pkg {
+				return
+			}
+			var ctx ssa.Value
+			for _, a := range call.Call.Args {
+				if strings.HasSuffix(a.Type().String(), "context.Context") {
+					ctx = a
+				}
+			}
+			if ctx == nil {
+				return
+			}
+			var chans []ssa.Value
+			res := call.Call.Signature().Results()
+			for i := 0; i < res.Len(); i++ {
+				if _, isChan := res.At(i).Type().Underlying().(*types.Chan); isChan {
+					if res.Len() == 1 {
+						chans = append(chans, call)
+					} else if ex := core.ExtractOf(call, i); ex != nil {
+						chans = append(chans, ex)
+					}
+				}
+			}
+			if len(chans) > 0 {
+				issues = append(issues, issue{chans, ctx, in})
+			}
+		})
+		for _, is := range issues {
+			// the WithTimeout/WithDeadline call the context comes from, and its cancel function
+			ex, ok := is.ctx.(*ssa.Extract)
+			if !ok || ex.Index != 0 {
+				continue
+			}
+			w, ok := ex.Tuple.(*ssa.Call)
+			if !ok || !(strings.HasSuffix(core.CalleeName(&w.Call), "context.WithTimeout") || strings.HasSuffix(core.CalleeName(&w.Call), "context.WithDeadline")) {
+				continue
+			}
+			cancel := core.ExtractOf(w, 1)
+			if cancel == nil || cancel.Referrers() == nil {
+				continue
+			}
+			usesChan := func(x ssa.Instruction) bool {
+				ci, ok := x.(ssa.CallInstruction)
+				if ok {
+					for _, a := range ci.Common().Args {
+						for _, c := range is.chans {
+							if a == c {
+								return true
+							}
+						}
+					}
+				}
+				if sel, ok := x.(*ssa.Select); ok {
+					for _, st := range sel.States {
+						for _, c := range is.chans {
+							if st.Chan == c {
+								return true
+							}
+						}
+					}
+				}
+				return false
+			}
+			for _, ref := range *cancel.Referrers() {
+				k, ok := ref.(*ssa.Call)
+				if !ok || k.Call.Value != ssa.Value(cancel) {
+					continue
+				}
+				n++
+				wit := core.PathQuery{Fn: f, From: k, Target: usesChan}.Find()
+				r.Check(wit == nil, rule, fmt.Sprintf("%s|request-context-cancelled-last#%d", core.FnKey(f), n), p.Pos(k.Pos()), "the context of the requests is cancelled only after the last collector",
+					"the context under which the requests were issued is cancelled here although the strategy goes on collecting answers: requests still outstanding are aborted and counted as errors, so an eligible answer arriving later in the time limit can no longer be used", p.WitnessText(wit)...)
+			}
+		}
+	}
+	return n
+}
